@@ -68,7 +68,8 @@ package mem
 //@ spec srcDataErr(src keyvalue.FileRecord) := keyvalue.srcDataErr(src)
 // the stored blob is the source's data; for a record fresh from FS.newFile, the fresh empty blob its first load produced
 //@ spec storedData(b blob.Blob, src keyvalue.FileRecord) := implies(!old(keyvalue.srcNew(src)), b == old(srcData(src))) &&
-//@        implies(old(keyvalue.srcNew(src)), keyvalue.emptyBytes(b) && fresh(b.(*blob.Bytes)) && implies(isType(src, *keyvalue.fileData), b == srcData(src)))
+//@        implies(old(keyvalue.srcNew(src)), keyvalue.emptyBytes(b) && fresh(b.(*blob.Bytes)) && implies(isType(src, *keyvalue.fileData), b == srcData(src))) &&
+//@        implies(isType(src, *keyvalue.fileData), srcCache(src).dataDone == 1 && srcCache(src).dataErr == nil && srcCache(src).data == b)
 //@ spec srcCache(src keyvalue.FileRecord) := src.(*keyvalue.fileData).runOnceFileRecord
 //@ spec sameExcept(s *store, path string) := forall(k, string, implies(k != path, in(k, dom(s.records)) == old(in(k, dom(s.records))) && s.records[k] == old(s.records[k])))
 //@ spec sameAll(s *store) := forall(k, string, in(k, dom(s.records)) == old(in(k, dom(s.records))) && s.records[k] == old(s.records[k]))
